@@ -6,10 +6,12 @@ package harness
 import (
 	"fmt"
 	"os"
+	"os/exec"
 	"path/filepath"
 	"strings"
 	"sync"
 	"testing"
+	"time"
 
 	"pgregory.net/rapid"
 )
@@ -55,6 +57,16 @@ func c09Scenarios(cfg runCfg) []Scenario {
 			out = append(out, Scenario{Family: "realT", Seed: mix(cfg.seed, 9, 3, uint64(j)), K: j % 4})
 		}
 		i++
+	}
+	for j := 0; j < cfg.n(48, 10); j++ {
+		if cfg.mine(i) {
+			out = append(out, Scenario{Family: "flaky-failfile", Seed: mix(cfg.seed, 9, 4, uint64(j)), N: pick(newRng(uint64(j)), []int{5, 20, 100})})
+		}
+		i++
+	}
+	// a test deadline that is reached while every case was skipped: must not pass vacuously (child process with -test.timeout)
+	if cfg.shard < 4 {
+		out = append(out, Scenario{Family: "deadline", Seed: mix(cfg.seed, 9, 5, uint64(cfg.shard)), K: cfg.shard % 2})
 	}
 	return out
 }
@@ -271,6 +283,65 @@ func c09Run(t *testing.T, sc Scenario, res *Result) {
 			}
 		}
 
+	case "flaky-failfile":
+		// a fail file whose replay falsifies the property once (state dependent): the test case WAS falsified, so
+		// Check must fail and must not go on generating fresh random cases
+		name := fmt.Sprintf("C09fl_%x", sc.Seed&0xffffff)
+		writeFailFile(name, "20260101000000-1", rapidVersion(), 1, []uint64{r.next(), r.next(), r.next()}, "planted")
+		calls := 0
+		cr := runBody(func(x *X) {
+			calls++
+			x.draw(rapid.Uint64().AsAny(), "u")
+			if calls == 1 {
+				x.fail(fkFatalf, 0)
+			}
+		}, runOpts{name: name, flags: map[string]string{"rapid.checks": fmt.Sprint(sc.N), "rapid.nofailfile": "true"}, noExit: true})
+		res.inc("checks_run")
+		res.inc("family:flaky-failfile")
+		res.nontrivial(fmt.Sprintf("flaky-failfile/%d", sc.N))
+		nrandom := 0
+		for _, inv := range cr.log.Invs {
+			if inv.Kind == "random" {
+				nrandom++
+			}
+		}
+		detail := map[string]any{"checks": sc.N, "invocations": len(cr.log.Invs), "random_cases": nrandom, "tb": cr.tb.brief()}
+		if !cr.tb.Failed() {
+			res.violate(sc, "c09/flaky-failfile-passed", "a fail-file replay falsified the property, yet Check passed: "+clip(cr.rp.Kind+" "+cr.rp.Raw, 200), detail)
+		}
+		if nrandom > 0 {
+			res.violate(sc, "c09/flaky-failfile-continued", fmt.Sprintf("%d fresh random test cases were generated after a fail-file replay had falsified the property", nrandom), detail)
+		}
+
+	case "deadline":
+		// child: real *testing.T with a deadline (-test.timeout); every case sleeps and skips (K=0) or every other case is valid (K=1)
+		self, _ := os.Executable()
+		cmd := exec.Command(self, "-test.run", "^TestDeadlineChild$", "-test.timeout", "4s", "-test.v")
+		cmd.Env = append(os.Environ(), fmt.Sprintf("C09_DEADLINE_MODE=%d", sc.K))
+		out, _ := cmd.CombinedOutput()
+		text := string(out)
+		res.inc("checks_run")
+		res.inc("family:deadline")
+		res.nontrivial(fmt.Sprintf("deadline/%d", sc.K))
+		switch {
+		case strings.Contains(text, "test timed out") || strings.Contains(text, "panic: test timed out"):
+			res.inconclusive("deadline child hit the go test timeout before rapid's early exit")
+		case !strings.Contains(text, "DEADLINE-CHILD-RAN"):
+			res.inconclusive("deadline child did not run: " + clip(text, 200))
+		case sc.K == 0:
+			res.inc("deadline_all_skipped")
+			if strings.Contains(text, "OK, passed 0 tests") || strings.Contains(text, "--- PASS: TestDeadlineChild") {
+				res.violate(sc, "c09/vacuous-early-exit", "Check passed although it ran out of time with 0 valid test cases: "+clip(text, 300), nil)
+			} else if !strings.Contains(text, "only generated 0 valid tests") {
+				res.inconclusive("unexpected child output: " + clip(text, 300))
+			}
+		default:
+			res.inc("deadline_some_valid")
+			if !strings.Contains(text, "--- PASS: TestDeadlineChild") {
+				res.inconclusive("early exit with valid cases did not pass: " + clip(text, 300))
+			}
+		}
+
 	case "realT":
 		// a failed Check stops the enclosing *testing.T
 		setFlags(map[string]string{"rapid.nofailfile": "true", "rapid.checks": "20", "rapid.shrinktime": "0s"})
@@ -314,7 +385,8 @@ func c09Run(t *testing.T, sc Scenario, res *Result) {
 // ---------------------------------------------------------------------------
 // C11
 
-var c11Behaviours = []string{"pass", "skip", "errorf", "errorf+skip", "cleanup-errorf", "go-errorf", "cleanup-state", "fatalf", "panic", "skip+cleanup-errorf", "errorf+invalid-draw"}
+var c11Behaviours = []string{"pass", "skip", "errorf", "errorf+skip", "cleanup-errorf", "go-errorf", "cleanup-state", "fatalf", "panic", "skip+cleanup-errorf", "errorf+invalid-draw",
+	"cleanup-skip", "cleanup-more-errorf", "cleanup-more"}
 
 func c11Scenarios(cfg runCfg) []Scenario {
 	var out []Scenario
@@ -351,10 +423,14 @@ func c11Scenarios(cfg runCfg) []Scenario {
 	return out
 }
 
+// follow-up cleanups (registered by a cleanup): ran / registered, reset per scenario
+var c11FollowUps [2]int
+
 var impossibleGen = rapid.Int().Filter(func(int) bool { return false }).AsAny()
 
 // c11Body builds the property: the behaviour of a test case is a function of its first draw.
 func c11Body(forced map[uint64]string, randomRate int, salt uint64, leaks *int, staleCtx *int) func(x *X) {
+	followUps, followUpsRegistered := &c11FollowUps[0], &c11FollowUps[1]
 	return func(x *X) {
 		u := x.draw(rapid.Uint64().AsAny(), "").(uint64)
 		x.draw(rapid.IntRange(0, 9).AsAny(), "")
@@ -417,6 +493,35 @@ func c11Body(forced map[uint64]string, randomRate int, salt uint64, leaks *int, 
 				// a context asked for during cleanup must not survive into the next case
 				_ = me.t.Context()
 			})
+		case "cleanup-skip":
+			// the only (last-running) cleanup skips: the case is merely invalid, the same T goes on to the next case
+			x.t.Cleanup(func() {
+				if !me.current() {
+					*leaks++
+				}
+				me.ev("cleanup skips")
+				me.inv.SkipWhy = "skip from a cleanup"
+				me.t.Skip("skip from a cleanup")
+			})
+		case "cleanup-more-errorf", "cleanup-more":
+			// a cleanup that registers another cleanup: it belongs to this case, too
+			x.t.Cleanup(func() {
+				if !me.current() {
+					*leaks++
+				}
+				me.t.Cleanup(func() {
+					if !me.current() {
+						*leaks++
+					}
+					me.ev("follow-up cleanup ran")
+					*followUps++
+					if b == "cleanup-more-errorf" {
+						me.where = "body/cleanup"
+						raiseOn(me, me.t, fkErrorf, 2)
+					}
+				})
+				*followUpsRegistered++
+			})
 		case "fatalf":
 			x.fail(fkFatalf, 3)
 		case "panic":
@@ -462,6 +567,7 @@ func c11Run(t *testing.T, sc Scenario, res *Result) {
 		rate = r.between(20, 200)
 	}
 	leaks, stale = 0, 0
+	c11FollowUps = [2]int{}
 	cr := runBody(c11Body(forced, rate, sc.Seed, &leaks, &stale), runOpts{name: "C11", flags: fl})
 	res.inc("checks_run")
 	res.inc("family:" + sc.Family)
@@ -493,6 +599,9 @@ func c11Run(t *testing.T, sc Scenario, res *Result) {
 	}
 	if leaks > 0 {
 		res.violate(sc, "c11/cleanup-leak", fmt.Sprintf("%d cleanups ran while another test case was executing", leaks), detail)
+	}
+	if c11FollowUps[0] != c11FollowUps[1] {
+		res.violate(sc, "c11/follow-up-cleanups", fmt.Sprintf("%d cleanups were registered by cleanup functions but %d ran by the end of the Check", c11FollowUps[1], c11FollowUps[0]), detail)
 	}
 	if stale > 0 {
 		res.violate(sc, "c11/stale-state", "a test case started with a cancelled context or a set failure flag carried over from an earlier case", detail)
@@ -573,4 +682,22 @@ func c11Run(t *testing.T, sc Scenario, res *Result) {
 	if res.wantSample() && F != nil && r.chance(1, 6) {
 		res.sample(map[string]any{"family": sc.Family, "behaviour_sequence": clipList(seq, 12), "verdict": clip(cr.rp.Raw, 120)})
 	}
+}
+
+// TestDeadlineChild only runs in the child process started by the C09 "deadline" family.
+func TestDeadlineChild(t *testing.T) {
+	mode := os.Getenv("C09_DEADLINE_MODE")
+	if mode == "" {
+		t.Skip("not a deadline child")
+	}
+	fmt.Println("DEADLINE-CHILD-RAN")
+	calls := 0
+	rapid.Check(t, func(rt *rapid.T) {
+		calls++
+		rapid.Uint8().Draw(rt, "v")
+		time.Sleep(40 * time.Millisecond)
+		if mode == "0" || calls%2 == 0 {
+			rt.Skip("not valid")
+		}
+	})
 }
